@@ -25,47 +25,74 @@ def run_all():
     return out
 
 def main():
-    seeds = sys.argv[1:] or sorted(os.listdir(os.path.join(VERIF, 'seeded')))
-    assert subprocess.run(['git', '-C', REPO, 'status', '--porcelain', '--untracked-files=no'], capture_output=True, text=True).stdout.strip() == '', 'repo dirty'
-    # each run in a fresh interpreter state: fork a child per configuration
-    def child(tag):
-        r = subprocess.run([sys.executable, __file__, '--child'], capture_output=True, text=True)
+    import concurrent.futures as cf
+    import queue
+    args = [a for a in sys.argv[1:] if not a.startswith('--')]
+    jobs = 4
+    seeds = args or sorted(os.listdir(os.path.join(VERIF, 'seeded')))
+    workers = ['/tmp/confirm%d' % i for i in range(1, jobs + 1)]
+    for w in workers:
+        assert subprocess.run(['git', '-C', w, 'status', '--porcelain', '--untracked-files=no'], capture_output=True, text=True).stdout.strip() == '', 'worker dirty ' + w
+
+    def child(w):
+        env = dict(os.environ, VF_REPO=w, VF_CACHE='/tmp/seedcache_' + os.path.basename(w))
+        r = subprocess.run([sys.executable, __file__, '--child'], capture_output=True, text=True, env=env)
         try:
             return json.loads(r.stdout.strip().splitlines()[-1])
         except Exception:
             return {'_error': {'crash': (r.stdout + r.stderr)[-800:]}}
-    base = child('base')
+    base = child(workers[0])
+    if '_error' in base:
+        print('BASE ENGINE ERROR', base)
+        return
+    print('base violations:', {k: sorted(v) for k, v in base.items() if v}, flush=True)
+    free = queue.Queue()
+    for w in workers:
+        free.put(w)
     res = {}
-    for s in seeds:
+
+    def run(s):
         pd = os.path.join(VERIF, 'seeded', s, 'patch.diff')
-        if not os.path.exists(pd):
-            continue
-        a = subprocess.run(['git', '-C', REPO, 'apply', pd], capture_output=True, text=True)
-        if a.returncode != 0:
-            print('%-8s PATCH DOES NOT APPLY: %s' % (s, a.stderr.strip()[:200]))
-            continue
+        w = free.get()
         try:
+            a = subprocess.run(['git', '-C', w, 'apply', pd], capture_output=True, text=True)
+            if a.returncode != 0:
+                return s, None, 'PATCH DOES NOT APPLY: ' + a.stderr.strip()[:200], 0
             t0 = time.time()
-            got = child(s)
+            try:
+                got = child(w)
+            finally:
+                subprocess.run(['git', '-C', w, 'checkout', '--', '.'])
+            return s, got, None, time.time() - t0
         finally:
-            subprocess.run(['git', '-C', REPO, 'checkout', '--', '.'])
-        prop = s.split('-')[0]
-        new = {}
-        if '_error' in got or '_error' in base:
-            print('%-8s ENGINE ERROR %s' % (s, str(got.get('_error') or base.get('_error'))[:300]))
-            continue
-        for pid, v in got.items():
-            for k, d in v.items():
-                if k not in base.get(pid, {}):
-                    new.setdefault(pid, {})[k] = d
-        hit_own = prop in new
-        print('%-8s %s  own-property:%s  new violations in: %s  (%.0fs)' % (s, 'CAUGHT' if new else 'MISSED', 'yes' if hit_own else 'no', sorted(new), time.time() - t0))
-        for pid, v in new.items():
-            for k, d in list(v.items())[:3]:
-                print('           %s %s :: %s' % (pid, k, d[:140].replace('\n', ' ')))
-        res[s] = new
-    os.makedirs(os.environ.get('VF_CACHE') or os.path.join(VERIF, '.cache'), exist_ok=True)
-    json.dump(res, open(os.path.join(os.environ.get('VF_CACHE') or os.path.join(VERIF, '.cache'), 'seedcheck.json'), 'w'), indent=1)
+            free.put(w)
+    todo = [s for s in seeds if os.path.exists(os.path.join(VERIF, 'seeded', s, 'patch.diff'))]
+    with cf.ThreadPoolExecutor(max_workers=jobs) as ex:
+        for s, got, err, dt in ex.map(run, todo):
+            if err:
+                print('%-8s %s' % (s, err), flush=True)
+                continue
+            if '_error' in got:
+                print('%-8s ENGINE ERROR %s' % (s, str(got['_error'])[:300]), flush=True)
+                continue
+            prop = s.split('-')[0]
+            new = {}
+            for pid, v in got.items():
+                for k, d in v.items():
+                    if k not in base.get(pid, {}):
+                        new.setdefault(pid, {})[k] = d
+            print('%-8s %s  own-property:%s  new violations in: %s  (%.0fs)' % (s, 'CAUGHT' if new else 'MISSED', 'yes' if prop in new else 'no', sorted(new), dt), flush=True)
+            shown = set()
+            for pid, v in new.items():
+                for k, d in list(v.items())[:4]:
+                    if k in shown:
+                        continue
+                    shown.add(k)
+                    print('           %s %s :: %s' % (pid, k, d[:150].replace(chr(10), ' ')), flush=True)
+            res[s] = new
+    os.makedirs(os.path.join(VERIF, '.cache'), exist_ok=True)
+    json.dump(res, open(os.path.join(VERIF, '.cache', 'seedcheck.json'), 'w'), indent=1)
+
 
 if __name__ == '__main__':
     if '--child' in sys.argv:
